@@ -1,11 +1,14 @@
 package simkit
 
 import (
+	"crypto/sha256"
+	"encoding/hex"
 	"encoding/json"
 	"fmt"
 	mathrand "math/rand"
 	"os"
 	"runtime"
+	"sort"
 	"strconv"
 	"strings"
 	"testing"
@@ -48,26 +51,29 @@ type Spec struct {
 
 // RunResult is the outcome of one simulated run.
 type RunResult struct {
-	Run        int            `json:"run"`
-	Seed       uint64         `json:"seed"`
-	TraceHash  string         `json:"trace_hash"`
-	Signature  string         `json:"signature,omitempty"`
-	Steps      int            `json:"steps"`
-	NonFIFO    int            `json:"non_fifo"`
-	VirtualS   float64        `json:"virtual_s"`
-	WallMs     float64        `json:"wall_ms"`
-	Faults     map[string]int `json:"faults,omitempty"`
-	Probes     map[string]int `json:"probes,omitempty"`
-	Info       map[string]int `json:"info,omitempty"`
-	Violation  *Violation     `json:"violation,omitempty"`
-	Overrun    bool           `json:"overrun,omitempty"`
-	Nontrivial bool           `json:"nontrivial"`
-	Sample     interface{}    `json:"sample,omitempty"`
-	Decisions  []Decision     `json:"decisions,omitempty"`
-	TraceTail  []string       `json:"trace_tail,omitempty"`
-	Panic      string         `json:"panic,omitempty"`
-	Plan       map[string]int `json:"plan,omitempty"`
-	PlanPoints int            `json:"plan_points,omitempty"`
+	Run       int    `json:"run"`
+	Seed      uint64 `json:"seed"`
+	TraceHash string `json:"trace_hash"`
+	// DecisionHash is the hash of the sorted decision log: unlike the trace hash it does not
+	// depend on the order in which independent activities happened to run (Go map iteration).
+	DecisionHash string         `json:"decision_hash"`
+	Signature    string         `json:"signature,omitempty"`
+	Steps        int            `json:"steps"`
+	NonFIFO      int            `json:"non_fifo"`
+	VirtualS     float64        `json:"virtual_s"`
+	WallMs       float64        `json:"wall_ms"`
+	Faults       map[string]int `json:"faults,omitempty"`
+	Probes       map[string]int `json:"probes,omitempty"`
+	Info         map[string]int `json:"info,omitempty"`
+	Violation    *Violation     `json:"violation,omitempty"`
+	Overrun      bool           `json:"overrun,omitempty"`
+	Nontrivial   bool           `json:"nontrivial"`
+	Sample       interface{}    `json:"sample,omitempty"`
+	Decisions    []Decision     `json:"decisions,omitempty"`
+	TraceTail    []string       `json:"trace_tail,omitempty"`
+	Panic        string         `json:"panic,omitempty"`
+	Plan         map[string]int `json:"plan,omitempty"`
+	PlanPoints   int            `json:"plan_points,omitempty"`
 }
 
 // ReplayFile is what is written for every reported violation.
@@ -152,6 +158,7 @@ func runOne(t *testing.T, spec Spec, verifSeed uint64, run int, tier string, d *
 		}()
 		if s != nil {
 			res.TraceHash = s.Tr.Hash()
+			res.DecisionHash = decisionHash(d.Log())
 			res.Steps = s.Steps
 			res.NonFIFO = s.NonFIFO
 			res.Faults = s.Faults.Map()
@@ -357,8 +364,16 @@ func minimise(t *testing.T, spec Spec, path, out string) {
 		if c.Decisions == nil {
 			c.Decisions = []Decision{}
 		}
-		r := runOne(t, spec, rf.VerifSeed, rf.Run, rf.Tier, deciderFor(c), true, rf.Plan)
-		return sameViolation(rf, r), r
+		// a candidate is tried up to three times: the order of Go map iteration inside nuts-node is
+		// not under the simulator's control and may decide whether a schedule reproduces
+		var r RunResult
+		for attempt := 0; attempt < 3; attempt++ {
+			r = runOne(t, spec, rf.VerifSeed, rf.Run, rf.Tier, deciderFor(c), true, rf.Plan)
+			if sameViolation(rf, r) {
+				return true, r
+			}
+		}
+		return false, r
 	}
 	okBase, base := try(cur)
 	if !okBase {
@@ -422,4 +437,18 @@ func minimise(t *testing.T, spec Spec, path, out string) {
 	if out != "" {
 		writeJSON(out, rf)
 	}
+}
+
+func decisionHash(log []Decision) string {
+	lines := make([]string, len(log))
+	for i, x := range log {
+		lines[i] = fmt.Sprintf("%s|%d|%d|%d", x.Label, x.K, x.N, x.V)
+	}
+	sort.Strings(lines)
+	h := sha256.New()
+	for _, l := range lines {
+		h.Write([]byte(l))
+		h.Write([]byte{10})
+	}
+	return hex.EncodeToString(h.Sum(nil)[:8])
 }
